@@ -21,7 +21,7 @@ BASE = {
     "obs": {"LIST": 6, "LIST_TWICE": 2, "TIMES": 8, "DURATION": 4, "COMPOSITES": 3, "COMP_TIMES": 2,
             "CHANNELS": 1, "ACQ": 3, "LAST": 1, "STIM": 3, "OPENQL": 2, "PLOT": 2, "REPR": 1, "COPYOBS": 2,
             "FULL": 2},
-    "flt": {"FLUSH": 3, "SINK_FAIL": 3, "GC": 1, "IDLE": 1},
+    "flt": {"FLUSH": 3, "SINK_FAIL": 3, "GC": 1, "IDLE": 1, "DROP": 1},
     "class": {"mut": 60, "obs": 30, "flt": 10},
     "p_rel": 0.3, "p_reps": 0.35, "p_regdur": 0.2, "p_regrep": 0.25, "lib": True,
     "kinds": None, "force_kinds": [], "max_steps": 28, "min_steps": 6, "p_long": 0.008,
@@ -138,6 +138,7 @@ class Gen:
         self.unroll_cap = 400 if self.long else 60
         self.model = Model(BOOT_CONFIGS[self.boot_id] or BOOT_CONFIGS["shipped"])
         self.steps = []
+        self.dropped = set()
         self.force = {}
         self.sess_handles = {s: [] for s in range(self.n_sessions)}
         self.decl = set()
@@ -462,7 +463,7 @@ class Gen:
         # bias towards recently created/mutated handles
         elif rng.random() < 0.5:
             for st in reversed(self.steps):
-                if st["op"] in ("ADD_OP", "ADD_SUB", "APPLY", "FLATTEN", "COPY") :
+                if st["op"] in ("ADD_OP", "ADD_SUB", "APPLY", "FLATTEN", "COPY") and st.get("as", st["c"]) not in self.dropped:
                     name = st.get("as", st["c"])
                     break
         what = self.force.pop("what", None) or _wchoice(rng, self.P["obs"])
@@ -503,6 +504,18 @@ class Gen:
         if what == "FLUSH":
             st["which"] = rng.choice(["single", "multi", "both", "both"])
             self.emit(st)
+            return True
+        if what == "DROP":
+            hs = [h for h in self.all_handles() if h not in self.dropped]
+            if len(hs) < 2:
+                return False
+            h = rng.choice(hs)
+            for lst in self.sess_handles.values():
+                if h in lst:
+                    lst.remove(h)
+            self.dropped.add(h)
+            self.decl.discard(h)
+            self.emit({"s": s, "op": "DROP", "c": h})
             return True
         if what == "SINK_FAIL":
             st["n"] = rng.choice([1, 1, 2, 3, 5, 8, 13, 21])
